@@ -7,6 +7,7 @@ import (
 	sdk "github.com/cosmos/cosmos-sdk/types"
 
 	auctypes "github.com/comdex-official/comdex/x/auctionsV2/types"
+	esmtypes "github.com/comdex-official/comdex/x/esm/types"
 	lendtypes "github.com/comdex-official/comdex/x/lend/types"
 	liqtypes "github.com/comdex-official/comdex/x/liquidationsV2/types"
 
@@ -83,6 +84,9 @@ func (f *Fix) Exec(e *sim.Env, a string, args M) M {
 		return resOf(e.Deliver(liqtypes.NewMsgLiquidateInternalKeeperRequest(e.Users[gets(args, "u")], 1, u64("b"))))
 	case "Bid":
 		return resOf(e.Deliver(auctypes.NewMsgPlaceMarketBid(addr(), u64("auc"), coin("da", "amt"))))
+	case "Kill": // environment: the app's circuit breaker (admin check is C12's matter)
+		_ = e.App.EsmKeeper.SetKillSwitchData(e.Ctx, esmtypes.KillSwitchParams{AppId: f.App, BreakerEnable: getb(args, "on")})
+		return M{"ok": true}
 	case "Price": // environment: oracle price move
 		f.SetPrice(e.Ctx, u64("asset"), geti(args, "p"))
 		for _, as := range f.Assets {
